@@ -61,11 +61,15 @@ func panicker(kind int, s string) interface{} {
 		return []interface{}{panStr{s}, "y", "x"}
 	case 12:
 		return nilErrThenFields{(*derefErr)(nil), 7, s}
+	case 13:
+		// a panic whose payload panics again while it is being reported,
+		// raised inside a nested Printf of a SafeFormat method
+		return sfDoublePanic{s}
 	}
 	panic("panicker")
 }
 
-const nPanickers = 13
+const nPanickers = 14
 
 // a value-receiver method reached through a nil pointer panics in the
 // runtime; fmt (and redact) print <nil>
@@ -109,11 +113,20 @@ func H_c11p(p []int) {
 		return
 	}
 	out := []byte(r.out)
+	// the returned string is a value: an unrelated later call (served by
+	// whatever printers the first one gave back) does not change it
+	// (also for a short result, which fits the printer's initial 64-byte buffer)
+	short := catchRedact(func() redact.RedactableString { return redact.Sprintf("p %v s", panicker(kind, s)) })
+	shortCopy := append([]byte{}, short.out...)
+	_ = redact.Sprintf("%020d %v %s", 0, nestedSF{"qqqqqqqq"}, "zzzzzzzzzzzzzzzzzzzzzzzz")
+	_ = redact.Sprintf("yyyyyyyyyyyyyyyy %d", 1)
+	vAssert(bytesEq([]byte(r.out), out), "C11/result-stable-after-later-call")
+	vAssert(bytesEq([]byte(short.out), shortCopy), "C11/result-stable-after-later-call")
 	vObserve("out", out)
 	wf, ls := wfls(out)
 	vAssert(wf, "C11/wf")
 	vAssert(ls, "C11/lineSafe")
-	if kind <= 3 || kind >= 6 {
+	if (kind <= 3 || kind >= 6) && kind != 13 {
 		// fmt-compatible panickers: compare with the standard library
 		f := catchFmt(func() string { return fmt.Sprintf(format, panicker(kind, s), "t‹", 5) })
 		f0 := catchFmt(func() string { return fmt.Sprintf(format, panicker(kind, ""), "t‹", blankI(0)) })
